@@ -750,39 +750,38 @@ func (self Node) Gets(keys []PathNode, opts *Options) (err error) {
 	}
 	need := len(keys)
 	for count := 0; it.HasNext() && count < need; {
-		for j, id := range keys {
-			if id.Path.Type() == PathStrKey {
-				exp := id.Path.str()
-				_, s, v, e := it.NextStr(opts.UseNativeSkip)
-				if it.Err != nil {
-					return errValue(meta.ErrRead, "", it.Err)
-				}
-				if exp == s {
-					p := &keys[j]
+		// read one pair, then look for it among the requested keys
+		if self.kt == thrift.STRING {
+			_, s, v, e := it.NextStr(opts.UseNativeSkip)
+			if it.Err != nil {
+				return errValue(meta.ErrRead, "", it.Err)
+			}
+			for j, id := range keys {
+				if id.Path.Type() == PathStrKey && id.Path.str() == s {
+					keys[j].Node = self.slice(v, e, et)
 					count += 1
-					p.Node = self.slice(v, e, et)
 				}
-			} else if id.Path.Type() == PathIntKey {
-				exp := id.Path.int()
-				_, s, v, e := it.NextInt(opts.UseNativeSkip)
-				if it.Err != nil {
-					return errValue(meta.ErrRead, "", it.Err)
-				}
-				if exp == s {
-					p := &keys[j]
+			}
+		} else if self.kt.IsInt() {
+			_, s, v, e := it.NextInt(opts.UseNativeSkip)
+			if it.Err != nil {
+				return errValue(meta.ErrRead, "", it.Err)
+			}
+			for j, id := range keys {
+				if id.Path.Type() == PathIntKey && id.Path.int() == s {
+					keys[j].Node = self.slice(v, e, et)
 					count += 1
-					p.Node = self.slice(v, e, et)
 				}
-			} else {
-				exp := id.Path.bin()
-				_, s, v, e := it.NextBin(opts.UseNativeSkip)
-				if it.Err != nil {
-					return errValue(meta.ErrRead, "", it.Err)
-				}
-				if bytes.Equal(exp, s) {
-					p := &keys[j]
+			}
+		} else {
+			_, s, v, e := it.NextBin(opts.UseNativeSkip)
+			if it.Err != nil {
+				return errValue(meta.ErrRead, "", it.Err)
+			}
+			for j, id := range keys {
+				if id.Path.Type() == PathBinKey && bytes.Equal(id.Path.bin(), s) {
+					keys[j].Node = self.slice(v, e, et)
 					count += 1
-					p.Node = self.slice(v, e, et)
 				}
 			}
 		}
